@@ -288,5 +288,17 @@ def inFragmentXB (ordf : List World → List World) (G : MG Name) (O C : Event) 
   fragXStaticB G O C && exchangeB ordf G O C
 
 
+/-- executable form of the hypotheses of the general termination theorem (Props/C08.lean `idcstar_terminates_shared_names`): dicts
+of well-formed keys over the graph, values named after their keys, no key self-intervened -/
+def idcInvB (G : MG Name) (O C : Event) : Bool :=
+  decide O.keys.Nodup && decide C.keys.Nodup &&
+  (O ++ C).all (fun p => decide (p.2.name = p.1.name) && decide (p.1.star = none) && !p.1.isIv &&
+    decide (p.1.name ∈ G.nodes) && p.1.ivs.all (fun i => p.1.ivs.all (fun j => decide (i.name = j.name → i = j))) &&
+    isNotSelfIntervened p.1)
+
+/-- no variable name occurs both among the outcomes and among the conditions (hypothesis of `idcstar_own_recursion_terminates`) -/
+def disjointNamesB (O C : Event) : Bool :=
+  decide C.keys.Nodup && O.keys.all (fun o => C.keys.all (fun c => decide (o.name ≠ c.name)))
+
 end Cf
 end Y0
